@@ -309,11 +309,26 @@ func runC20(c *Ctx) {
 	c.Assumptions = []string{"accesses between two scheduling points execute atomically (no word-level tearing / memory-model effects); a free-running -race pass would be auxiliary only", "the terminal answers cursor-position queries immediately", "the instrumentation is syntactic (cmd/instrument) and covers sync, channels, go, select, signal.Notify, fmt.Print*, os.Stdin/os.Stderr of internal/core"}
 	c.Bounds = map[string]any{"preemption_bound_max": P, "scenarios": len(scen), "budgets": len(budgets)}
 	perScenario := map[string]any{}
+	// a node is a schedule prefix: the decisions of the parent execution up to i, then alt.
+	// The parent's decision list is shared by all its children (memory stays bounded: the
+	// exploration is depth-first in chunks, not level by level).
 	type node struct {
-		si, bi  int
-		choices []int
-		cost    int
+		base   []int32
+		i, alt int
+		cost   int
 	}
+	prefixOf := func(n node) []int {
+		if n.i < 0 {
+			return nil
+		}
+		ch := make([]int, n.i+1)
+		for k := 0; k < n.i; k++ {
+			ch[k] = int(n.base[k])
+		}
+		ch[n.i] = n.alt
+		return ch
+	}
+	const chunk = 4096
 	perBound := map[int]int64{}
 	for si, sc := range scen {
 		for bi, b := range budgets {
@@ -340,15 +355,25 @@ func runC20(c *Ctx) {
 				}
 			}
 			P := bound(si, bi)
-			level := []node{{si, bi, nil, 0}}
-			for len(level) > 0 {
+			stack := []node{{nil, -1, 0, 0}}
+			maxStack := 0
+			for len(stack) > 0 {
 				if c.Expired() {
-					c.Cap(fmt.Sprintf("internal deadline: %s / %s: not all schedules with <= %d preemptions explored", sc.name, b.name, P))
+					c.Cap(fmt.Sprintf("internal deadline: %s / %s: not all schedules with <= %d deviations explored (%d prefixes pending)", sc.name, b.name, P, len(stack)))
 					break
 				}
+				if len(stack) > maxStack {
+					maxStack = len(stack)
+				}
+				k := len(stack) - chunk
+				if k < 0 {
+					k = 0
+				}
+				level := append([]node(nil), stack[k:]...)
+				stack = stack[:k]
 				jobs := make([]harness.Job, len(level))
 				for i, n := range level {
-					jobs[i] = c20Job(i, sc, b, n.choices, false)
+					jobs[i] = c20Job(i, sc, b, prefixOf(n), false)
 				}
 				var next []node
 				c.Pool.Map(jobs, func(j *harness.Job, t *harness.Trace) {
@@ -409,27 +434,29 @@ func runC20(c *Ctx) {
 						c.Outcome("ok/" + r.Outcome)
 					}
 					if c.Evaluations%2003 == 5 {
-						c.Sample(map[string]any{"scenario": sc.name, "budget": b.name, "choices": n.choices, "decisions": len(r.Decisions), "outcome": r.Outcome, "line": r.Line})
+						c.Sample(map[string]any{"scenario": sc.name, "budget": b.name, "deviation_at": n.i, "decisions": len(r.Decisions), "outcome": r.Outcome, "line": r.Line})
 					}
 					// branch on every later alternative within the bound
 					cost := 0
+					var chosen []int32
 					for i, d := range r.Decisions {
-						if i >= len(n.choices) {
+						if i > n.i {
 							for alt := 1; alt < len(d.Enabled); alt++ {
 								if cost+altCost(d, alt) <= P {
-									ch := make([]int, i+1)
-									for k := 0; k < i; k++ {
-										ch[k] = r.Decisions[k].Chosen
+									if chosen == nil {
+										chosen = make([]int32, len(r.Decisions))
+										for k := range r.Decisions {
+											chosen[k] = int32(r.Decisions[k].Chosen)
+										}
 									}
-									ch[i] = alt
-									next = append(next, node{si, bi, ch, cost + altCost(d, alt)})
+									next = append(next, node{chosen, i, alt, cost + altCost(d, alt)})
 								}
 							}
 						}
 						cost += altCost(d, d.Chosen)
 					}
 				})
-				level = next
+				stack = append(stack, next...)
 			}
 			perScenario[sc.name+" / "+b.name] = map[string]any{"bound": P, "schedules_so_far": c.Evaluations}
 		}
